@@ -85,7 +85,8 @@ theorem trackEv_send_norm (pre : Snap) (t : Track) (sid : Sid) (topic : Topic) (
 
 theorem trackEv_cancel_norm (pre : Snap) (t : Track) (sid : Sid) : norm (trackEv pre t (.cancel sid)) = norm t := by
   simp only [trackEv, effective, completionOf, ↓reduceIte]
-  split <;> rfl
+  repeat' split
+  all_goals rfl
 
 end Afkak.Producer
 
@@ -704,7 +705,7 @@ theorem handled_fireOk (cfg : Cfg) (s : St) (t : Track) (e : Ev) (rid : Rid) (b 
   intro o ho
   cases o with
   | fire sid out =>
-    rcases rf sid out ho with ⟨resp, e1, e2, e3, e4⟩ | ⟨e1, e2, e3, e4⟩ | ⟨k, e1⟩
+    rcases rf sid out ho with ⟨resp, e1, e2, e3, e4⟩ | ⟨e1, e2, e4⟩ | ⟨k, e1⟩
     · subst e1
       have htp : resp.tp ∈ b.current := by
         simp only [validResult, Bool.and_eq_true, List.all_eq_true, decide_eq_true_eq] at hv
@@ -723,9 +724,8 @@ theorem handled_fireOk (cfg : Cfg) (s : St) (t : Track) (e : Ev) (rid : Rid) (b 
       | _ => trivial
     · subst e1
       simp only [fireOk, hc, e2, beq_self_eq_true, Bool.true_and, Bool.and_eq_true, completedTrack,
-        List.contains_iff_mem]
-      refine ⟨?_, hprod sid e4⟩
-      rcases e3 with e3 | e3 <;> (subst e3; rfl)
+        List.contains_iff_mem, Option.isSome_some, true_and]
+      exact hprod sid e4
     · subst e1; rfl
   | _ => rfl
 
